@@ -281,7 +281,7 @@ def run(chk, tier):
     chk.fn_seen(ffp['path'])
     psv = prog.variant_names('trippy_core::probe::ProbeStatus')
     st = St()
-    engf = Engine(prog, inline_depth=1, opaque=[r'Probe::failed$'])
+    engf = Engine(prog, inline_depth=2, opaque=[r'Probe::failed$', r'ProbeStatus as core::clone::Clone>::clone$'])   # depth 2: the index may come from a helper
     outs = engf.run(ffp, [engf.sym_ref(st, 'self')], st)
     IDX1 = r'Sub\(Sub\(self\.sequence, self\.round_sequence\), 1\)'
     for o in outs:
